@@ -2,6 +2,7 @@ import asyncio
 import io
 import os
 import pathlib
+import re
 import sys
 from collections.abc import Awaitable, Callable
 from contextlib import suppress
@@ -79,6 +80,11 @@ for content_type, extension in ADDITIONAL_CONTENT_TYPES.items():
 
 
 _CLOSE_FUTURES: set[asyncio.Future[None]] = set()
+
+# A Range header that lists more than one range-spec (RFC 9110, 14.1.1 and 14.1.2).
+_RANGE_SET_RE: Final = re.compile(
+    r"bytes=(?:\d+-\d*|-\d+)(?:[ \t]*,[ \t]*(?:\d+-\d*|-\d+))+", re.ASCII
+)
 
 
 def _has_zero_weight(coding: str) -> bool:
@@ -335,6 +341,20 @@ class FileResponse(StreamResponse):
             # strong comparison (a weak tag never matches); anything else
             # cannot match either.
             process_range = ifrange_hdr.strip() == f'"{etag_value}"'
+
+        rng_hdr = request.headers.get(hdrs.RANGE, "")
+        if process_range and _RANGE_SET_RE.fullmatch(rng_hdr):
+            # multipart/byteranges is not implemented: a set of ranges is not
+            # processed (RFC 9110, 14.2) unless none of them is satisfiable.
+            specs = [spec.strip().partition("-") for spec in rng_hdr[6:].split(",")]
+            process_range = not any(
+                (
+                    int(first) < file_size and (not last or int(first) <= int(last))
+                    if first
+                    else int(last) > 0
+                )
+                for first, _, last in specs
+            )
 
         if process_range:
             # If-Range header check:
